@@ -149,9 +149,9 @@ SAN_ENV = {
 
 def harness_args(flavour, extra=()):
     a = list(extra)
-    if flavour in ("asan", "hash") and "--redzone" not in a:
+    if flavour in ("asan", "hash", "asan_nd") and "--redzone" not in a:
         a += ["--redzone", "32"]
-    if "--fill" not in a and flavour in ("asan", "hash", "plain"):
+    if "--fill" not in a and flavour in ("asan", "hash", "plain", "asan_nd"):
         a += ["--fill", "203"]
     return a
 
